@@ -122,7 +122,7 @@ static void run_class(const Api& A, const std::vector<Step>& st, vj::Writer& W) 
     if (snapt) { if (bad == "" && H[x.t] && A.bin(8, H[x.t], snapt) <= 0) bad = "call-changed-the-value-of-its-const-argument"; A.del(snapt); }
     vj::Obj e; e.s("e", "Dim").s("cls", A.name).i("t", t).s("op", op).s("exp", x.out).i("rc", rcode).i("hc", hc).i("hcode", hcd).raw("dims", vj::arr(dims)).raw("expdims", vj::arr(exp)).s("bad", bad).b("emp", emp).b("big", false);
     W.line(e.str());
-    if (dims != exp) break;   // the handles no longer mirror the model: stop this class
+    if (bad != "") break;   // after a divergence (e.g. an ill-formed call that was not rejected) the handles no longer mirror the model: stop this class
   }
   for (int s = 1; s <= 4; ++s) if (H[s]) A.del(H[s]);
 }
